@@ -146,6 +146,12 @@ impl<T: RecognizerReadable> Decoder for ReconDecoder<T> {
     fn decode(&mut self, src: &mut bytes::BytesMut) -> Result<Option<Self::Item>, Self::Error> {
         self.decoder.decode(src)
     }
+
+    fn decode_eof(&mut self, src: &mut bytes::BytesMut) -> Result<Option<Self::Item>, Self::Error> {
+        // The wrapped decoder only completes a trailing bare token (a number or identifier) when it
+        // is told that the input has ended.
+        self.decoder.decode_eof(src)
+    }
 }
 
 impl<T: RecognizerReadable> ReconDecoder<T> {
